@@ -7,9 +7,12 @@ using namespace vf;
 
 namespace {
 const uint8_t SIG[] = { '"', '\\', '/', '*', ' ', '\t', '\n', 'a', '1', '{', ':', ',', '\r' };
-const char* GAPS[] = { "", " ", "\t\r\n", "//c\n", "/*c*/", "/* \" */", "// \"\n", " /**/ ", "/***/", "/* * / */", "//\n", "/*\n*/ " };
+const char* GAPS[] = { "", " ", "\t\r\n", "//c\n", "/*c*/", "/* \" */", "// \"\n", " /**/ ", "/***/", "/* * / */", "//\n", "/*\n*/ ",
+    "//c\r,1\n" /* a carriage return does not end a line comment */, "/*\r//*/" };
 const int NGAPS = sizeof GAPS / sizeof *GAPS;
-const char* STRS[] = { "\"a\"", "\"a b\"", "\"\\\"\"", "\"\\\\\"", "\"a\\\\\"", "\"\\\\\\\"\"", "\"/*x*/\"", "\"//\"", "\" \"", "\"\\\\\\\\\"", "\"\\\"//\\\"\"", "\"\\u0041 \\n\"", "\"*/\"", "\"\xc3\xa9 x /*y*/\"", "\"\\\\\\\" x/\"", "\"a\x7f b\"" };
+const char* STRS[] = { "\"a\"", "\"a b\"", "\"\\\"\"", "\"\\\\\"", "\"a\\\\\"", "\"\\\\\\\"\"", "\"/*x*/\"", "\"//\"", "\" \"", "\"\\\\\\\\\"", "\"\\\"//\\\"\"", "\"\\u0041 \\n\"", "\"*/\"", "\"\xc3\xa9 x /*y*/\"", "\"\\\\\\\" x/\"", "\"a\x7f b\"",
+    // literals longer than any block size a bulk copy might use, plain and with escapes late in the literal
+    "\"0123456789 0123456789 0123456789 0123456789\"", "\"0123456789/*0123456789*/0123456789//0123\\\"456789 0123456789\\\\\"" };
 const int NSTRS = sizeof STRS / sizeof *STRS;
 
 // token list of a reference tree; string leaves/keys are placeholders replaced by literals from STRS
@@ -49,8 +52,10 @@ struct XMinify : Engine {
             return;
         }
         if (stage == "runs") {   // long runs of one steering byte, alone, after a value, before a value, inside a string
-            for (size_t a = 0; a < sizeof SIG; a++) for (int len = 1; len <= 40; len++) for (int ctx = 0; ctx < 5; ctx++) { if (!pool_take()) continue; std::string r((size_t)len, (char)SIG[a]);
-                run_text(0, ctx == 0 ? r : ctx == 1 ? "[1]" + r : ctx == 2 ? r + "[1]" : ctx == 3 ? "\"" + r + "\"" : "[1," + r + "2]", nullptr); }
+            std::vector<int> lens; for (int len = 1; len <= 70; len++) lens.push_back(len); for (int len : { 127, 128, 129, 255, 256, 257, 300, 1000, 4097 }) lens.push_back(len);
+            for (size_t a = 0; a < sizeof SIG; a++) for (int len : lens) for (int ctx = 0; ctx < 11; ctx++) { if (!pool_take()) continue; std::string r((size_t)len, (char)SIG[a]);
+                // ctx 5..10: the buffer ends inside a string literal / comment after a long run (the terminator is the last accessible byte)
+                run_text(0, ctx == 0 ? r : ctx == 1 ? "[1]" + r : ctx == 2 ? r + "[1]" : ctx == 3 ? "\"" + r + "\"" : ctx == 4 ? "[1," + r + "2]" : ctx == 5 ? "\"" + r : ctx == 6 ? "[1,\"" + r : ctx == 7 ? "\"" + r + "\\" : ctx == 8 ? "/*" + r : ctx == 9 ? "//" + r : "{\"k\":\"x\\\"" + r, nullptr); }
             return;
         }
         if (stage == "allbytes") {   // every single byte and every pair of bytes (incl. truncated multi-byte sequences such as a partial BOM)
